@@ -9,6 +9,7 @@ from concurrent.futures import ThreadPoolExecutor
 from pathlib import Path
 
 import core
+import c20_pool
 import extract
 import extract_c20
 from core import hx, unhx, err_class
@@ -25,6 +26,29 @@ def run_session(script, timeout=600):
     if p.returncode != 0:
         raise core.Infra("session subprocess failed: " + p.stderr[-400:])
     return json.loads(p.stdout.strip().splitlines()[-1])
+
+
+def run_alone(steps, workers=14):
+    """every step in a fresh process forked from an interpreter that has only imported the library"""
+    half = (len(steps) + 1) // 2
+    parts = [steps[:half], steps[half:]] if len(steps) > 40 else [steps]
+
+    def one(part):
+        p = subprocess.run(
+            ["/venv/bin/python", str(SESSION), str(core.REPO), "-"],
+            input=json.dumps({"fork_each": [[list(st)] for st in part], "workers": max(2, workers // len(parts))}),
+            capture_output=True, text=True, timeout=1800)
+        if p.returncode != 0:
+            raise core.Infra("session fork server failed: " + p.stderr[-400:])
+        out = json.loads(p.stdout.strip().splitlines()[-1])["sessions"]
+        for st, r in zip(part, out):
+            if "error" in r:
+                raise core.Infra("forked session failed for %r: %s" % (st[0], r["error"]))
+        return out
+
+    with ThreadPoolExecutor(max_workers=len(parts)) as ex:
+        res = list(ex.map(one, parts))
+    return [r for part in res for r in part]
 
 
 def be32(n):
@@ -47,29 +71,42 @@ def desc_body(key: bytes, explicit: bool) -> bytes:
 
 def run(ctx: core.Run):
     src = core.REPO / "src" / "psd_tools"
-    cells, defaults = extract_c20.extract(src)
+    cells, defaults, switches = extract_c20.extract_all(src)
     ctx.write_generated("Globals", extract_c20.to_lean(cells, defaults))
+    ctx.write_generated("Switches", extract_c20.switches_to_lean(switches))
+    _extractor_selftest(ctx)
     terms_info = extract.gen_terms(ctx)
     ctx.prove(["PsdVerif.Props.C20"])
     ctx.trusted_base += [
         "Lean 4.33 kernel; axioms allowed: propext, Classical.choice, Quot.sound (audited per theorem)",
-        "harness/extract_c20.py: AST walk producing the footprint table (aliasing through getattr/exec is not seen; "
-        "validated dynamically by snapshotting every module global and class attribute around scripted sessions)",
+        "harness/extract_c20.py: AST walk producing the footprint table and the table of foreign switch sites (aliasing "
+        "through getattr/exec/importlib is not seen; the list of switch-like callee names is a pattern, see SWITCH_RE; "
+        "validated on every run by a self-test tree with planted state and dynamically by snapshotting every module global, "
+        "class attribute and foreign switch around scripted sessions)",
         "Model/Globals.lean: generic footprint semantics and the descriptor key codec (tied by correspondence)",
         "C-level state of NumPy/PIL/zlib is outside every model",
     ]
-    ctx.assumptions += ["operations touch process-wide state only through Python-level module globals / class attributes"]
+    ctx.assumptions += ["operations touch process-wide state only through Python-level module globals / class attributes of "
+                        "psd_tools and through the foreign switches listed in the switch table; a site restored by a context "
+                        "manager is not a write (single-threaded before/after semantics)"]
     table = {c.key: c for c in cells}
     ctx.extra["footprint"] = [
         {"cell": c.key, "kind": c.kind, "writers": sorted(set(c.writers))[:4], "readers": len(set(c.readers))} for c in cells
     ]
     # cells that are written at run time and read: each is a concrete suspect for the search below
     dirty = [c for c in cells if c.writers and c.readers]
+    ctx.extra["foreign_switch_sites"] = [
+        {"site": "%s:%d" % (w["module"], w["line"]), "callee": w["callee"], "how": w["how"], "at_runtime": w["atRuntime"],
+         "restored": w["scoped"]} for w in switches]
+    live_switches = [w for w in switches if w["atRuntime"] and not w["scoped"]]
     for d in defaults:
         ctx.fail(f"C20/shared-default/{d['module']}:{d['line']}", "attr.ib default is a shared mutable object", d)
 
     rng = ctx.rng
     quick = ctx.quick
+    import time
+    phase = {}
+    t_phase = time.time()
 
     # ------------- correspondence: descriptor key codec, model vs code
     import psd_tools.psd.descriptor as D
@@ -132,6 +169,7 @@ def run(ctx: core.Run):
                 pass
     ctx.sample({"key stream": hx(streams[1])})
 
+    phase["key_codec"] = round(time.time() - t_phase, 1); t_phase = time.time()
     # ------------- sessions: alone in a fresh interpreter vs after other sessions
     small = sorted([p for p in FIX.glob("*.ps[db]")], key=lambda p: p.stat().st_size)
     pool = small[: (8 if quick else 40)]
@@ -171,11 +209,87 @@ def run(ctx: core.Run):
         ("desc_read_trunc", hx(desc_body(unknown, explicit=False)[:-9] )),
         ("desc_read_trunc", hx(be32(1) + b"\0\0" + be32(0) + b"ab")),
     ]
+    # ---- histories in degenerate configurations, sessions whose outcome is a refusal, damaged-but-tolerated documents
+    steps += c20_pool.api_scripts(rng, 24 if quick else 200)
+    layered = [p for p in small if p.suffix == ".psd" and p.stat().st_size > 3000][:1] + \
+              [p for p in small if p.suffix == ".psb"][:1]
+    refusals = c20_pool.refusal_files(layered if quick else layered + pool[:6], scratch)
+    steps += [("describe", str(p)) for p, _ in refusals]
+    steps += [("open_save", str(p)) for p, what in refusals if what.startswith(("blend", "clipping", "depth", "mode"))]
+    steps += [("new_doc", a) for a in ("RGB:4:3:8", "RGB:0:4:8", "RGB:4:0:8", "L:3:3:12", "XYZ:3:3:8", "RGB:300001:1:8",
+                                       "CMYK:2:2:16", "LAB:2:2:8", "RGBA:2:2:32", "L:-1:2:8")]
+    if layered:
+        steps += [("set_attr", "%s|%s" % (layered[0], a)) for a in (
+            "opacity|300", "opacity|-1", "opacity|128", "blend_mode|'no such mode'", "blend_mode|'multiply'",
+            "name|'" + "x" * 300 + "'", "visible|False", "clipping_layer|True", "left|2**40")]
+    steps += [("call_deprecated", ""), ("warn_probe", "")]
+    fx60 = [p for p in sorted(FIX.rglob("*.ps[db]"), key=lambda p: (p.stat().st_size, str(p))) if p.stat().st_size <= 60000]
+    dmg_src = c20_pool.covering_files(fx60 if quick else
+                                      [p for p in sorted(FIX.rglob("*.ps[db]"), key=lambda p: (p.stat().st_size, str(p)))
+                                       if p.stat().st_size <= 400000])
+    cands = c20_pool.damaged_candidates(dmg_src, scratch, rng, None if quick else 4000,
+                                        fractions=(0.125, 0.5, 0.875) if quick else c20_pool.FRACTIONS,
+                                        all_mutations=not quick)
+    classes = _classify([str(c[0]) for c in cands])
+    picked, seen_cls = [], {}
+    import re as _re
+    for (pth, key, how), cl in zip(cands, classes):
+        kind = cl.split(":")[0]
+        norm = (key, _re.sub(r"b'[^']*'|\d+", "#", cl))
+        ctx.hist("damaged_payload_variants", kind)
+        cap = {"opened+warning": (40 if quick else 400), "EXC": (8 if quick else 80), "opened": (4 if quick else 40)}[kind]
+        if norm in seen_cls or sum(1 for k in seen_cls.values() if k == kind) >= cap:
+            continue
+        seen_cls[norm] = kind
+        picked.append((pth, key, how, cl))
+    for pth, key, how, cl in picked:
+        steps.append(("describe", str(pth)))
+        if cl.startswith("opened+warning"):
+            steps.append(("open_save", str(pth)))
+            steps.append(("structure", str(pth)))
+    ctx.extra["damaged_payload_documents"] = {
+        "sources": [p.name for p in dmg_src], "candidates": len(cands),
+        "picked": [{"file": Path(p).name, "block": k, "mutation": h, "reader": c} for p, k, h, c in picked][:60]}
+    ctx.extra["refusal_files"] = [Path(p).name for p, _ in refusals]
     # alone: one fresh interpreter per step
-    with ThreadPoolExecutor(max_workers=14) as ex:
-        alone = list(ex.map(lambda st: run_session([list(st)]), steps))
+    phase["pool"] = round(time.time() - t_phase, 1); t_phase = time.time()
+    alone = run_alone(steps)
+    # the fork server is an optimisation of "a fresh interpreter per step": cross-check a sample against the real thing
+    probe = [steps[i] for i in sorted(rng.sample(range(len(steps)), min(6, len(steps))))]
+    with ThreadPoolExecutor(max_workers=6) as ex:
+        fresh = list(ex.map(lambda st: run_session([list(st)]), probe))
+    for st, r in zip(probe, fresh):
+        ctx.corr_cases += 1
+        if r["results"][0] != alone[steps.index(st)]["results"][0]:
+            ctx.disagree("a session forked from an import-only interpreter differs from the same session in a fresh interpreter",
+                         {"step": _short_step(st), "fresh": r["results"][0], "forked": alone[steps.index(st)]["results"][0]})
+    phase["alone"] = round(time.time() - t_phase, 1); t_phase = time.time()
     alone_res = {tuple(st): r["results"][0] for st, r in zip(steps, alone)}
     changed_alone = sorted({c for r in alone for c in r["changed_cells"]})
+    # a step that, ALONE in a fresh interpreter, leaves process-wide state changed is a suspect history all by itself:
+    # replay the whole pool after it in one interpreter and compare every result with the alone result
+    suspects, seen_leak = [], set()
+    for st, r in zip(steps, alone):
+        leak = tuple(r["changed_cells"])
+        if leak and leak not in seen_leak and len(suspects) < (3 if quick else 8):
+            seen_leak.add(leak)
+            suspects.append((st, leak))
+    directed_fail = set()
+    for st, leak in suspects:
+        rest = [x for x in steps if x != st]
+        r = run_session([list(st)] + [list(x) for x in rest], timeout=1800)
+        bad = [(x, res) for x, res in zip(rest, r["results"][1:]) if res != alone_res[tuple(x)]]
+        ctx.hist("leaky_steps_followed_up", st[0])
+        if not bad:
+            ctx.disagree("a session leaves process-wide state changed (no session of the pool was seen to depend on it)",
+                         {"step": _short_step(st), "changed": list(leak)})
+        for x, res in bad[:3]:
+            directed_fail.add(tuple(x))
+            ctx.fail(f"C20/history-dependent/{x[0]}/{_tag(x)}",
+                     f"{x[0]} gives a different result after a session that leaves {', '.join(leak)} changed than alone "
+                     "in a fresh interpreter",
+                     _portable({"step": list(x), "history": [list(st)], "state_left_changed": list(leak)}),
+                     res, alone_res[tuple(x)])
     # histories: the same steps in several random orders, each order in ONE interpreter
     n_hist = 3 if quick else 10
     orders = []
@@ -187,32 +301,63 @@ def run(ctx: core.Run):
     with ThreadPoolExecutor(max_workers=10) as ex:
         hist = list(ex.map(lambda o: run_session([list(s) for s in o], timeout=1800), orders))
     changed_hist = sorted({c for r in hist for c in r["changed_cells"]})
+    phase["histories"] = round(time.time() - t_phase, 1); t_phase = time.time()
+    ctx.extra["history_seconds_by_op"] = hist[0].get("seconds")
     nshrunk = [0]
+    reported = set()
+    suspect_steps = [tuple(st) for st, _ in suspects]
+    # steps that left state changed inside a history (attributed by the per-step snapshots)
+    for o, r in zip(orders, hist):
+        for c, i in sorted(r.get("changed_by", {}).items(), key=lambda kv: kv[1]):
+            if c in r["changed_cells"] and tuple(o[i]) not in suspect_steps:
+                suspect_steps.append(tuple(o[i]))
     for o, r in zip(orders, hist):
         for pos, (st, res) in enumerate(zip(o, r["results"])):
             ctx.count(("session", st, pos), nontrivial=not res.startswith("EXC:") and res != "skipped-large")
             ctx.hist("session_op", st[0])
-            if res != alone_res[tuple(st)]:
-                # shrink: which earlier step is responsible? (bounded: the first few distinct failures only)
-                nshrunk[0] += 1
-                culprit = _shrink(o[:pos], st, alone_res[tuple(st)]) if nshrunk[0] <= 4 else o[:pos]
-                ctx.fail(f"C20/history-dependent/{st[0]}/{Path(st[1]).name if '/' in st[1] else st[1][:16]}",
+            if res != alone_res[tuple(st)] and tuple(st) not in directed_fail and tuple(st) not in reported:
+                reported.add(tuple(st))
+                ctx.hist("history_dependent_results", st[0])
+                if len(reported) > (6 if quick else 20):
+                    continue            # the first few are reported with a shrunk history; the rest are counted
+                # which earlier step is responsible? a step known to leave state changed is tried first, on its own
+                culprit = None
+                for sus in suspect_steps:
+                    if sus in [tuple(x) for x in o[:pos]] and sus != tuple(st):
+                        rr = run_session([list(sus), list(st)])
+                        if rr["results"][-1] != alone_res[tuple(st)]:
+                            culprit = [sus]
+                            break
+                if culprit is None:
+                    nshrunk[0] += 1
+                    culprit = _shrink(o[:pos], st, alone_res[tuple(st)]) if nshrunk[0] <= 2 else o[:pos]
+                ctx.fail(f"C20/history-dependent/{st[0]}/{_tag(st)}",
                          f"{st[0]} gives a different result after other sessions than alone in a fresh interpreter",
-                         {"step": list(st), "history": [list(x) for x in culprit]}, res, alone_res[tuple(st)])
+                         _portable({"step": list(st), "history": [list(x) for x in culprit]}), res, alone_res[tuple(st)])
     ctx.sample({"session order (first 4)": [list(s) for s in orders[0][:4]]})
     # ------------- the static footprint validated dynamically
     for c in sorted(set(changed_alone) | set(changed_hist)):
-        cell = table.get(c.replace(":", ":", 1))
-        declared = cell is not None and bool(cell.writers)
         ctx.hist("cells_changed_at_runtime", c)
+        who = sorted({tuple(_short_step(o[r["changed_by"][c]])) for o, r in zip(orders, hist) if c in r.get("changed_by", {})} |
+                     {tuple(_short_step(st)) for st, r in zip(steps, alone) if c in r["changed_cells"]})[:3]
+        who = [list(x) for x in who]
+        if c.startswith("ext:"):
+            if not live_switches:
+                ctx.disagree("a process-wide switch of a foreign module is left changed by a session but the switch table "
+                             "has no run-time site", {"switch": c, "sessions": who})
+            continue
+        cell = table.get(c)
+        declared = cell is not None and bool(cell.writers)
         if not declared:
             ctx.disagree("a global cell changed during sessions but the footprint table does not declare a run-time writer",
-                         {"cell": c})
+                         {"cell": c, "sessions": who})
     for c in dirty:
         ctx.notes.append(f"cell written at run time and read: {c.key} writers={sorted(set(c.writers))[:3]}")
 
     # ------------- freshly constructed structures share no mutable state
     pairs = _default_pairs(ctx)
+    phase["default_pairs"] = round(time.time() - t_phase, 1)
+    ctx.extra["phase_seconds"] = phase
     ctx.extra["default_constructed_classes"] = pairs
 
     ctx.rule = (
@@ -220,17 +365,204 @@ def run(ctx: core.Run):
         "read_length_and_key/write_length_and_key vs the model; sessions: every (operation, document) step of a pool of "
         "fixtures and generated documents run alone in a fresh interpreter and again inside %d random orders of all steps in "
         "one interpreter each; non-trivial = the step produced a result (not an exception / skipped); distinct = (step, "
-        "position in order). All default-constructible element classes are paired." % n_hist
+        "position in order). All default-constructible element classes are paired. "
+        "The pool also holds: scripted API edit histories on freshly built documents in degenerate configurations (a fixed "
+        "matrix - layers never attached, grouped before being attached, detached and nested detached groups, cross-document "
+        "moves, cycles, operations that raise half-way - plus random scripts over the same vocabulary); sessions whose "
+        "outcome is a refusal (every closed-value header / record / channel / resource field of two fixtures set out of "
+        "range at offsets given by the specification walker; PSDImage.new and attribute edits with invalid arguments); "
+        "documents damaged inside one tagged-block / image-resource payload that the reader tolerates (picked per block key "
+        "and outcome class - opened with a warning first - by a classification run in subprocesses). Every step is "
+        "snapshotted (psd_tools globals incl. plain values and function identities; attrs validators, numpy error state and "
+        "print options, warnings filters, logging.disable and logger levels, recursion limit, sys.path, os.environ, cwd, "
+        "locale, decimal context, gc, random states, builtins, PIL limits); a step that leaves anything changed when run alone "
+        "is replayed in front of the whole pool." % n_hist
     )
     ctx.extra["terms"] = terms_info
     ctx.extra["session_steps"] = len(steps)
     ctx.extra["histories"] = n_hist
     ctx.model_coverage = {
-        "modelled": ["footprint table of every module-level/class-level mutable object", "descriptor key codec"],
+        "modelled": ["footprint table of every module-level/class-level name that is a mutable object or is assigned / "
+                     "augmented / mutated from a function body (global, module attribute, class attribute, container)",
+                     "table of the sites that flip process-wide switches of foreign modules (run-time / import-time / restored)",
+                     "descriptor key codec"],
         "not_modelled": ["C-level state in NumPy/PIL/zlib", "the body of every operation (only its footprint)"],
     }
     if ctx.tier == "thorough":
         ctx.recheck(["PsdVerif.Props.C20"])
+
+
+def _tag(st):
+    a = str(st[1])
+    if "|" in a:                       # set_attr: path|attribute|literal
+        parts = a.split("|")
+        return "%s-%s" % (parts[1], parts[2][:12])
+    if a.startswith("[["):             # api_script
+        import hashlib
+        return "script-" + hashlib.sha1(a.encode()).hexdigest()[:10]
+    return Path(a).name if "/" in a else a[:16]
+
+
+SCRATCH_MARK = "@scratch/"
+
+
+def _portable(inp):
+    """a failing input must outlive the scratch directory: files made by this run travel inside the input
+    (hex) and their paths are replaced by `@scratch/<name>`; `replay` puts them back"""
+    files = {}
+
+    def fix(st):
+        a = str(st[1])
+        out = a
+        for tok in [a] + a.split("|"):
+            if tok.startswith("/") and "/verif-c20-" in tok and Path(tok).is_file():
+                if Path(tok).stat().st_size <= 400000:
+                    files[Path(tok).name] = hx(Path(tok).read_bytes())
+                    out = out.replace(tok, SCRATCH_MARK + Path(tok).name)
+        return [st[0], out]
+
+    inp = dict(inp)
+    inp["step"] = fix(inp["step"])
+    inp["history"] = [fix(x) for x in inp["history"]]
+    if files:
+        inp["files"] = files
+    return inp
+
+
+def _short_step(st):
+    return [st[0], str(st[1]) if len(str(st[1])) < 200 else str(st[1])[:200] + "..."]
+
+
+def _classify(paths):
+    """outcome class of opening each file, computed in subprocesses (the damaged input never runs in this process)"""
+    if not paths:
+        return []
+    n = min(12, max(1, len(paths) // 8))
+    chunks = [paths[i::n] for i in range(n)]
+
+    def one(chunk):
+        p = subprocess.run(["/venv/bin/python", str(SESSION), str(core.REPO), "-"], input=json.dumps({"classify": chunk}),
+                           capture_output=True, text=True, timeout=900)
+        if p.returncode != 0:
+            raise core.Infra("classification subprocess failed: " + p.stderr[-400:])
+        return json.loads(p.stdout.strip().splitlines()[-1])["classes"]
+
+    with ThreadPoolExecutor(max_workers=n) as ex:
+        res = list(ex.map(one, chunks))
+    out = [None] * len(paths)
+    for i, r in enumerate(res):
+        out[i::n] = r
+    return out
+
+
+SELFTEST_TREE = {
+    "__init__.py": "",
+    "a.py": '''
+import os, sys, warnings, logging
+import numpy as np
+import attr
+from PIL import Image
+from decimal import getcontext
+from . import b
+from .b import Reg, TABLE
+_count = 0
+_flag = False
+_cache = {}
+_tmp = {}
+class K:
+    shared = []
+    limit = 3
+    def m(self):
+        self.shared.append(1)
+        type(self).limit = 4
+        return self.shared
+    @classmethod
+    def c(cls):
+        cls.limit += 1
+def bump():
+    global _count
+    _count += 1
+def read():
+    return _count, _flag, K.limit
+def flip():
+    global _flag
+    _flag = True
+def other():
+    b.LEVEL = 3
+    setattr(b, "MODE", "x")
+    TABLE["k"] = 1
+    Reg.items.add(2)
+def local_shadow():
+    _tmp = {}
+    _tmp["x"] = 1
+    return _tmp
+def uses_cache():
+    _cache["y"] = 2
+    return _cache.get("y")
+def switches():
+    attr.validators.set_disabled(True)
+    logging.disable(logging.CRITICAL)
+    warnings.simplefilter("ignore")
+    np.seterr(all="ignore")
+    sys.setrecursionlimit(10000)
+    os.environ["X"] = "1"
+    Image.MAX_IMAGE_PIXELS = None
+    getcontext().prec = 5
+    np.load = None
+    sys.path.append("x")
+def scoped():
+    with np.errstate(all="ignore"):
+        pass
+    with warnings.catch_warnings():
+        warnings.simplefilter("ignore")
+warnings.filterwarnings("ignore", module="x")
+''',
+    "b.py": '''
+LEVEL = 1
+MODE = "a"
+TABLE = {}
+class Reg:
+    items = set()
+def get():
+    return LEVEL, MODE, TABLE, Reg.items
+''',
+}
+
+
+def _extractor_selftest(ctx):
+    """the AST extractor is trusted: run it on a small tree in which every form of process-wide state it claims to see
+    is planted, and compare"""
+    import shutil
+    import tempfile
+    d = Path(tempfile.mkdtemp(prefix="verif-c20-selftest-"))
+    try:
+        root = d / "psd_tools"
+        root.mkdir()
+        for name, src in SELFTEST_TREE.items():
+            (root / name).write_text(src)
+        cells, _, sw = extract_c20.extract_all(root)
+        dirty = sorted(c.key for c in cells if c.writers and c.readers)
+        want_dirty = sorted(["psd_tools.a:_count", "psd_tools.a:_flag", "psd_tools.a:_cache", "psd_tools.a:K.shared",
+                             "psd_tools.a:K.limit", "psd_tools.b:LEVEL", "psd_tools.b:MODE", "psd_tools.b:TABLE",
+                             "psd_tools.b:Reg.items"])
+        live = sorted({w["callee"] for w in sw if w["atRuntime"] and not w["scoped"]})
+        want_live = sorted(["attr.validators.set_disabled", "logging.disable", "warnings.simplefilter", "numpy.seterr",
+                            "sys.setrecursionlimit", "os.environ[]", "PIL.Image.MAX_IMAGE_PIXELS", "decimal.getcontext().prec",
+                            "numpy.load", "sys.path.append"])
+        scoped = sorted({w["callee"] for w in sw if w["scoped"]})
+        want_scoped = sorted(["numpy.errstate", "warnings.catch_warnings", "warnings.simplefilter"])
+        imp = sorted({w["callee"] for w in sw if not w["atRuntime"]})
+        tmp_written = [c.key for c in cells if c.key == "psd_tools.a:_tmp" and c.writers]
+        ok = dirty == want_dirty and live == want_live and scoped == want_scoped and imp == ["warnings.filterwarnings"] \
+            and not tmp_written
+        ctx.corr_cases += 1
+        ctx.hist("extractor_selftest", "ok" if ok else "MISMATCH")
+        if not ok:
+            ctx.disagree("the footprint extractor does not see the process-wide state planted in its self-test tree",
+                         {"dirty": dirty, "want_dirty": want_dirty, "live_switches": live, "want_live": want_live,
+                          "scoped": scoped, "import_time": imp, "shadowed_local_counted": tmp_written})
+    finally:
+        shutil.rmtree(d, True)
 
 
 def _pattern_fixtures(limit):
@@ -388,10 +720,22 @@ def _obj(root, path):
 
 def replay(ctx, data):
     inp = data.get("input") or {}
+    if isinstance(inp, str):
+        try:
+            inp = json.loads(inp)
+        except Exception:  # noqa
+            inp = {}
     if "step" in inp:
-        alone = run_session([inp["step"]])["results"][0]
-        after = run_session(inp["history"] + [inp["step"]])["results"][-1]
-        print("alone:", alone, "after history:", after, "history:", inp["history"])
+        import tempfile
+        d = Path(tempfile.mkdtemp(prefix="verif-c20-replay-"))
+        for name, h in (inp.get("files") or {}).items():
+            (d / name).write_bytes(unhx(h))
+        sub = lambda st: [st[0], str(st[1]).replace(SCRATCH_MARK, str(d) + "/")]
+        step, history = sub(inp["step"]), [sub(x) for x in inp["history"]]
+        alone = run_session([step])["results"][0]
+        r = run_session(history + [step])
+        print("alone:", alone, "| after history:", r["results"][-1], "| history:", [_short_step(x) for x in history],
+              "| state left changed by the whole session:", r["changed_cells"])
     else:
         print(json.dumps(inp))
     return 0
